@@ -48,3 +48,48 @@ def gate_obligations(r, tier, lens, prefix='', ops=('decrypt', 'verify'), thread
                     d = ['H_GATE', 'FLEN=%d' % n, 'THREADS=%d' % th, 'SREF_MSGMAX=%d' % (n + 8)] + (['OP_VERIFY'] if op == 'verify' else []) + ([] if ht is None else ['HTFIX=%d' % ht])
                     r.add(Ob('%sgate-%s-len%d-T%d%s' % (prefix, op, n, th, '' if ht is None else '-h%s' % ht), 'h_verify.c', [u], defines=d,
                              unwind=max(400, n + 130), timeout=T, envs=KERN_ENVS, replay_units=[ureal], replay_envs=NATIVE_FILE_ENVS, cbmc_extra=['--max-field-sensitivity-array-size', '256']))
+
+RUNCRY = ['_ZN10AesECB_Enc6runcryEPh', '_ZN10AesECB_Dec6runcryEPh', '_ZN10AesCBC_Enc6runcryEPh', '_ZN10AesCBC_Dec6runcryEPh', '_ZN6AesCTR6runcryEPh',
+          '_ZN10AesCFB_Enc6runcryEPh', '_ZN10AesCFB_Dec6runcryEPh', '_ZN6AesOFB6runcryEPh']
+CVWAIT = '_ZNSt18condition_variable4waitERSt11unique_lockISt5mutexE'
+TSTART = '_ZNSt6thread15_M_start_threadESt10unique_ptrINS_6_StateESt14default_deleteIS1_EEPFvvE'
+TJOIN = '_ZNSt6thread4joinEv'
+SCHED_ARGS = ['--auto-resumable', '--yield-calls', ','.join(['pthread_mutex_lock', 'pthread_mutex_unlock', CVWAIT, TSTART, TJOIN]), '--yield-after', 'pthread_mutex_unlock',
+              '--yield-twophase', CVWAIT, '--shared-yield', '--monitor']
+PIPE_ROOTS = 'vf_pipe_run,vf_mode_make,vf_bg_buflst,vf_bg_state,vf_bg_nbuf,vf_iobuffer_size,vf_buf_sz,vf_bg_instance_null,vf_bg_live,vf_thread_decode'
+def U_kern_pipe(buf=1):
+    rep = []
+    for f in RUNCRY:
+        rep += ['--replace', '%s=mark_runcry' % f]
+    return U_kern('kern_pipe_b%d' % buf, buf=buf, extra=SCHED_ARGS + rep + UF_HASH + STUB_KEYS + ['--roots', PIPE_ROOTS])
+PIPE_ENVS = ['env_heap.c', 'env_cxx.c', 'env_file.c', 'env_io.c', 'env_sched.c']
+PIPE_DEFS = ['IR2C_ACCESS(p,n,w)=rs_access((u8*)(p),(u64)(n),(w))', 'MONITOR', 'RS_MAX_THREADS=4']
+
+E2E_ROOTS = 'vf_hmac_get,vf_rc_new,vf_rc_encrypt,vf_rc_decrypt,vf_rc_verify_op,vf_bg_instance_null,vf_bg_live,vf_buf_sz,vf_mode_getiv,vf_keyhandle_initkey_off,vf_thread_decode,vf_hash_get_total,vf_hash_set_total,vf_hash_words'
+def U_kern_e2e(buf=1):
+    rep = []
+    for f in RUNCRY:
+        rep += ['--replace', '%s=xmark_runcry' % f]
+    args = [a for a in SCHED_ARGS if a != '--monitor']
+    rep += ['--replace', '_ZN4hmac7cmphmacEhPhP8_IO_FILEPKhm=stub_cmphmac']
+    return U_kern('kern_e2e_b%d' % buf, buf=buf, extra=args + rep + UF_HASH + STUB_KEYS + ['--roots', E2E_ROOTS])
+E2E_DEFS = ['RS_MAX_THREADS=4', 'GHOST_MAX=4096']
+FS = ['--max-field-sensitivity-array-size', '2048']
+def e2e_ob(r, name, th, plen, ct=1, ht=0, buf=1, extra=(), k=None, timeout=600, known_key=None):
+    u, ureal = U_kern_e2e(buf), U_kern('kern', buf=buf)
+    k = k or (140 + 30 * (plen // (16 * buf) + 1) * 2)
+    return r.add(Ob(name, 'h_e2e.c', [u], defines=['THREADS=%d' % th, 'PLEN=%d' % plen, 'CT=%d' % ct, 'HT=%d' % ht, 'K=%d' % k, 'SREF_MSGMAX=%d' % (plen + 160)] + E2E_DEFS + list(extra),
+                    unwind=max(k + 40, plen + 200), timeout=timeout, mem_gb=24, envs=PIPE_ENVS, replay_units=[ureal], replay_envs=NATIVE_FILE_ENVS, cbmc_extra=FS, known_key=known_key))
+
+PROTO_SRCS = ['kernel/multi_aes/multi_buffergroup.cpp', 'kernel/multi_aes/multicry.cpp']
+PROTO_REPL = ['--replace', '_ZN8iobuffer11load_bufferEP8_IO_FILEb=stub_load', '--replace', '_ZN8iobuffer13export_bufferEP8_IO_FILEb=stub_export',
+              '--replace', '_ZNKSt8functionIFvNSt7__cxx1112basic_stringIcSt11char_traitsIcESaIcEEEmEEclES5_m=stub_printload',
+              '--replace', '_ZNSt7__cxx119to_stringEj=stub_to_string',
+              '--replace', '_ZStplIcSt11char_traitsIcESaIcEENSt7__cxx1112basic_stringIT_T0_T1_EEPKS5_OS8_=stub_strplus']
+PROTO_ROOTS = 'vf_proto_setup,vf_proto_io,vf_proto_worker,vf_proto_teardown,vf_markmode_new,vf_bg_buflst,vf_bg_state,vf_bg_nbuf,vf_iobuffer_size,vf_buf_sz,vf_bg_instance_null,vf_bg_live,vf_iob_set,vf_iob_total,vf_iob_now,vf_iob_isfinal,vf_iob_block_off'
+PROTO_SCHED = ['--auto-resumable', '--yield-calls', ','.join(['pthread_mutex_lock', 'pthread_mutex_unlock', CVWAIT]), '--yield-after', 'pthread_mutex_unlock',
+               '--yield-twophase', CVWAIT, '--shared-yield', '--monitor']
+def U_proto(buf=1):
+    return Unit('proto_b%d' % buf, 'proto_shim.cpp', defines=['WENCRY_VERIF_BUF_SZ=%d' % buf], clang_extra=['-fno-exceptions', '-fno-inline'],
+                extra_srcs=PROTO_SRCS, ir2c_args=PROTO_SCHED + PROTO_REPL + ['--roots', PROTO_ROOTS])
+PROTO_ENVS = ['env_heap.c', 'env_cxx.c', 'env_io.c', 'env_sched_proto.c']
